@@ -90,7 +90,8 @@ def check_program(src, seq=None, share=None):
         term = ("callable",)
       elif name in stub.classes:
         term = ("type", adm.ANY)
-      elif name in stub.aliases:
+      elif name in stub.aliases or name in stub.import_aliases:
+        # `n = T` / `from m import T as n`: n is declared as (an alias of) a type
         term = adm.ANY
       if term is None:
         bad.append("answers=%s: module-level name %r (value %r) is missing from the stub" % (answers, name, _short(v)))
